@@ -32,6 +32,13 @@ def run_check(P, tier, replay=None):
 
     # 1. regenerate generated model parts
     gen_fail = core.regenerate()
+    # a translator that fails closed breaks the obligation only for the properties
+    # whose model / proofs depend on the generated module
+    roots = [P.PROPERTY_FILE] + [t[:-1] for t in list(P.MODEL_TARGETS) + list(P.PROOF_TARGETS)]
+    deps = getattr(P, 'GEN_DEPS', None)
+    if deps is None:
+        deps = core.gen_deps(roots)      # everything the Coq files import, transitively
+    gen_fail = [g for g in gen_fail if g[0] in deps]
     # 2. build
     with core.BuildLock():
         # the executable model + correspondence harness first, then the proofs:
